@@ -83,12 +83,13 @@ def _exp_of(x):
     return None if d is None else d[1]
 
 
-def policy_sets(policy, avecs):
-    """Per state: 1-based action indices whose vector equals the returned row."""
+def policy_sets(policy, avecs, adiv=1):
+    """Per state: 1-based action indices whose vector equals the returned row (exactly, component by component)."""
     sets = []
+    want = [[x / adiv for x in v] for v in avecs]
     for row in np.asarray(policy).reshape(len(policy), -1):
-        sets.append([a + 1 for a, v in enumerate(avecs) if list(map(int, row)) == list(v)
-                     and all(float(x) == int(x) for x in row)])
+        r = [float(x) for x in row]
+        sets.append([a + 1 for a, v in enumerate(want) if r == v])
     return sets
 
 
@@ -303,8 +304,7 @@ def _run_job(job, ckpt_dir):
         if inj is not None:
             solver.values = jnp.array([n / 2 ** e for n, e in inj["v"]], dtype=jnp.float64)
             if inj.get("policy") is not None:
-                solver.policy = jnp.array(np.array(mdp["render"]["avecs"], dtype=np.int32).reshape(
-                    mdp["na"], -1)[np.array(inj["policy"], dtype=np.int32)])
+                solver.policy = jnp.array(T.action_array(mdp["render"], mdp["na"])[np.array(inj["policy"], dtype=np.int32)])
                 start_policy = np.array(solver.policy)
         start = np.array(solver.values)
         gain0 = float(getattr(solver, "gain", 0.0))
@@ -478,6 +478,7 @@ def project(job, raw):
         return ok, [o if ok else 0 for o in out]
 
     avecs = mdp["render"]["avecs"]
+    adiv = int(mdp["render"].get("adiv", 1))
     tr_events = []
     for ev in evs:
         vok, v = vec(ev["values"])
@@ -503,7 +504,7 @@ def project(job, raw):
         if ev["e"] == "sweep" and kind == "SAVI":
             rec["perm"] = [p + 1 for p in ev["perm"]] if ev.get("perm") is not None else list(range(1, ns + 1))
         if ev.get("policy") is not None:
-            sets = policy_sets(ev["policy"], avecs)
+            sets = policy_sets(ev["policy"], avecs, adiv)
             if len(sets) != ns:
                 sets = [[] for _ in range(ns)]
             rec["pol"] = sets
@@ -517,7 +518,7 @@ def project(job, raw):
             ook, o = vec(st["old"])
             nok, n = vec(st["new"])
             c = None if st["conv"] == float("inf") else at(st["conv"])
-            psets = policy_sets(st["policy"], avecs)
+            psets = policy_sets(st["policy"], avecs, adiv)
             rec["evals"].append({"n": st["n"], "ok": ook and nok and c is not None,
                                  "old": o, "new": n, "c": c or 0,
                                  "pick": [s[0] if s else 1 for s in psets]})
@@ -545,7 +546,7 @@ def project(job, raw):
              "max_eval_iter": job.get("max_eval_iter", 0), "reset": bool(job.get("reset", False)),
              "tag": job.get("tag")}
     if raw.get("start_policy") is not None:
-        sp = policy_sets(raw["start_policy"], avecs)
+        sp = policy_sets(raw["start_policy"], avecs, adiv)
         trace["startpol"] = [s[0] if s else 1 for s in sp]
         trace["startpolok"] = all(len(s) > 0 for s in sp)
     else:
@@ -556,7 +557,7 @@ def project(job, raw):
         trace["haspol0"] = bool(mdp["render"].get("has_init_policy"))
         trace["injectedpol"] = any((inj or {}).get("policy") is not None for inj in (job.get("injects") or []))
         if trace["haspol0"]:
-            sets = policy_sets(np.array(avecs, dtype=np.int64).reshape(mdp["na"], -1)[np.array(mdp["pol0"])], avecs)
+            sets = policy_sets(T.action_array(mdp["render"], mdp["na"])[np.array(mdp["pol0"])], avecs, adiv)
             trace["pol0"] = [s[0] for s in sets]
         else:
             trace["pol0"] = [1] * ns
